@@ -313,6 +313,7 @@ func checkC19(c *core.Ctx) {
 	nilPathScan(c, c.Rule("R19.11", "D", "no consistent path through decode-reachable code dereferences a pointer that the path's own nil test found nil (= R1.8)"), core.SortedFns(c.P.Roots().DecReach))
 	passThroughCycles(c, c.Rule("R19.12", "D", "a layer that passes its whole input on as payload never names a layer type as next that it decodes itself (= R1.9: unrecoverable stack overflow)"))
 	pathLenScan(c, c.Rule("R19.13", "D", "on every path of a decoder, accesses at an offset that is constant on that path lie within the length the path's own tests establish"))
+	nestedFlagAgreement(c, c.Rule("R19.14", "T", "a length-validating helper and the decoder that calls it nest the presence flags of the object in the same way"))
 	r5 := c.Rule("R19.5", "D", "length arithmetic on packet values is not done in uint8/uint16 where it can wrap before the result is used as a slice bound, index or length test")
 	narrowLengths(c, r5)
 	r4 := c.Rule("R19.4", "D", "cursor helpers: constant reads through a *[]byte cursor are covered by a length guard on the cursor's current contents, in the helper or at every call site")
